@@ -19,23 +19,25 @@ const (
 )
 
 type exchangeRec struct {
-	req        *http.Request
-	reqCalls   int
-	resCalls   int
-	reqCtx     *Context
-	resCtx     *Context
-	resRequest *http.Request
-	originAtReq int // origin calls seen when the request modifier ran
+	req         *http.Request
+	reqCalls    int
+	resCalls    int
+	reqCtx      *Context
+	resCtx      *Context
+	resRequest  *http.Request
+	originAtReq int  // origin calls seen when the request modifier ran
+	stale       bool // the context already carried a value when the request modifier first saw it
+	markSeen    bool // the response modifier found the request modifier's value in the context
 }
 
 // recorder is the request+response modifier under test conditions.
 type recorder struct {
-	behave  []int
-	recs    []*exchangeRec
-	o       *origin
-	conn    *clientConn
+	behave     []int
+	recs       []*exchangeRec
+	o          *origin
+	conn       *clientConn
 	hijackedAt int // conn reads+writes+deadlines at the moment of hijack (-1: none)
-	dials   *int
+	dials      *int
 }
 
 var errMod = errors.New("modifier failed")
@@ -51,13 +53,22 @@ func (m *recorder) rec(req *http.Request) *exchangeRec {
 	return r
 }
 
-func (m *recorder) activity() int { return m.conn.reads + m.conn.writes + m.conn.deadline }
+func (m *recorder) activity() int {
+	if m.conn == nil {
+		return 0
+	}
+	return m.conn.reads + m.conn.writes + m.conn.deadline
+}
 
 func (m *recorder) ModifyRequest(req *http.Request) error {
 	r := m.rec(req)
 	r.reqCalls++
 	r.reqCtx = NewContext(req)
 	r.originAtReq = len(m.o.seen)
+	if _, ok := r.reqCtx.Get("verif-mark"); ok || r.reqCtx.SkippingRoundTrip() {
+		r.stale = true
+	}
+	r.reqCtx.Set("verif-mark", r)
 	if m.dials != nil {
 		r.originAtReq += *m.dials
 	}
@@ -83,6 +94,9 @@ func (m *recorder) ModifyResponse(res *http.Response) error {
 	r.resCalls++
 	r.resCtx = NewContext(res.Request)
 	r.resRequest = res.Request
+	if v, ok := r.resCtx.Get("verif-mark"); ok && v == r {
+		r.markSeen = true
+	}
 	k := -1
 	for i, x := range m.recs {
 		if x == r {
@@ -165,7 +179,9 @@ func checkExchanges(m *recorder, conn *clientConn, o *origin, ms []string, behav
 			vf.Assert(r.resCalls == 1, "response-modifier-exactly-once")
 			vf.Assert(r.resRequest == r.req, "response-request-is-that-same-request")
 			vf.Assert(r.resCtx == r.reqCtx, "same-context-for-both-modifiers")
+			vf.Assert(r.markSeen, "response-modifier-sees-what-the-request-modifier-stored-in-the-context")
 		}
+		vf.Assert(!r.stale, "context-of-an-exchange-carries-nothing-from-another-exchange")
 		if r.reqCtx != nil {
 			vf.Assert(!ids[r.reqCtx.ID()], "context-ids-unique-per-exchange")
 			ids[r.reqCtx.ID()] = true
